@@ -15,6 +15,15 @@ git -C /repo archive HEAD | tar -x -C "$w/clean"
 git -C /repo archive HEAD | tar -x -C "$w/mut"
 if ! (cd "$w/mut" && git init -q . 2>/dev/null; patch -p1 --quiet < "$d/patch.diff") ; then echo "RESULT $name patch-does-not-apply"; exit 0; fi
 rm -rf "$w/mut/.git"
+if [ -n "${SKIP_CONFIRM:-}" ]; then
+  res=""
+  for c in $checks; do
+    out=$(cd /verif && VERIF_REPO="$w/mut" ./check $c $tier 2>&1); rc=$?
+    key=$(echo "$out" | grep '^violation' | grep -o 'key=[^ ]*' | head -1)
+    res="$res $c:exit$rc${key:+($key)}"
+  done
+  echo "RESULT $name (confirmation skipped) checks:$res"; exit 0
+fi
 b1=ok; (cd "$w/mut" && go build ./... && go build -tags verif ./...) >/dev/null 2>&1 || b1=FAIL
 t1=ok; (cd "$w/mut" && go test -vet=off -count=1 ./... ) >/dev/null 2>&1 || t1=FAIL
 t2=ok; (cd "$w/mut" && go test -tags verif -vet=off -count=1 ./... ) >/dev/null 2>&1 || t2=FAIL
